@@ -419,4 +419,19 @@ func TestReplay(t *testing.T) {
 	}
 }
 
-func TestKnownFindings(t *testing.T) { evid.RunWitnesses(t, classes) }
+func TestKnownFindings(t *testing.T) {
+	cs := append([]evid.Class{}, classes...)
+	// findings that carry their witness case as data (repaired defects kept as regressions)
+	for _, f := range evid.Findings() {
+		if len(f.Witness) == 0 {
+			continue
+		}
+		var c Case
+		if err := stdjson.Unmarshal(f.Witness, &c); err != nil || c.Type.K == "" {
+			t.Errorf("finding %s: witness is not a C01 case: %v", f.ID, err)
+			continue
+		}
+		cs = append(cs, evid.Class{Name: f.Class, Witness: func() *evid.Failure { return checkCase(c) }})
+	}
+	evid.RunWitnesses(t, cs)
+}
